@@ -20,6 +20,9 @@ pub enum Recv {
     ThinView,
     /// TooDeeViewMut::new(cols, rows, parent.data_mut()) (window must be the whole parent)
     Direct,
+    /// TooDeeViewMut::new over a slice LONGER than needed: the window is the top `rows` rows of a
+    /// taller parent of the same width; everything below must stay untouched
+    DirectLong,
 }
 
 pub trait RecvFn<T> {
@@ -84,6 +87,13 @@ pub fn with_recv<T, F: RecvFn<T>>(recv: Recv, parent: &mut TooDee<T>, win: Win, 
         }
         Recv::Direct => {
             let (c, r) = parent.size();
+            let mut v = TooDeeViewMut::new(c, r, parent.data_mut());
+            f.call(&mut v)
+        }
+        Recv::DirectLong => {
+            let c = parent.num_cols();
+            let r = (win.1).1;
+            assert!(win.0 == (0, 0) && (win.1).0 == c, "harness: DirectLong needs a full-width window at the top");
             let mut v = TooDeeViewMut::new(c, r, parent.data_mut());
             f.call(&mut v)
         }
